@@ -66,6 +66,10 @@ func GenRefGraph(t *rapid.T, label string) *GraphCase {
 			if rapid.Bool().Draw(t, l+"InOpt") {
 				inner.Props[0].Val.Rules = []ref.SRule{BoolRule("optional", true)}
 			}
+			if len(objects) > 0 && rapid.IntRange(0, 2).Draw(t, l+"InAllOf") == 0 {
+				// inheritance on an object below the root of a type
+				inner.Rules = append(inner.Rules, ref.SRule{Name: "allOf", ValKind: ref.RVAllOf, AllOf: []string{rapid.SampledFrom(objects).Draw(t, l+"InAllOfP")}})
+			}
 			return inner
 		}
 		return &ref.SNode{Kind: ref.SLit, Lit: ref.KString, Tok: `"s"`, Str: "s"}
@@ -98,8 +102,11 @@ func GenRefGraph(t *rapid.T, label string) *GraphCase {
 		for k := 0; k < cnt; k++ {
 			key := fmt.Sprintf("p%d", k)
 			v := refNode(fmt.Sprint(label, "T", i, "P", k))
-			if rapid.IntRange(0, 2).Draw(t, fmt.Sprint(label, "Opt", i, k)) == 0 {
+			switch rapid.IntRange(0, 5).Draw(t, fmt.Sprint(label, "Opt", i, k)) {
+			case 0, 1:
 				v.Rules = append(v.Rules, BoolRule("optional", true))
+			case 2:
+				v.Rules = append(v.Rules, BoolRule("optional", false)) // written out, still required
 			}
 			o.Props = append(o.Props, ref.SProp{Key: key, KeyTok: Quote(key), Val: v})
 		}
